@@ -50,6 +50,10 @@ type Storage struct {
 	// Key is StorageKey{contract_address, contract_name} and value is contract composite value.
 	contractUpdates *orderedmap.OrderedMap[interpreter.StorageKey, *interpreter.CompositeValue]
 
+	// discardedContractValues are the recorded contract values
+	// which were replaced by a later contract update or removal in the same execution.
+	discardedContractValues []*interpreter.CompositeValue
+
 	Ledger atree.Ledger
 
 	memoryGauge common.MemoryGauge
@@ -184,6 +188,16 @@ func (s *Storage) recordContractUpdate(
 	if s.contractUpdates == nil {
 		s.contractUpdates = &orderedmap.OrderedMap[interpreter.StorageKey, *interpreter.CompositeValue]{}
 	}
+
+	// If a contract value was already recorded for this contract during this execution
+	// (e.g. the contract was added and is now removed in the same transaction),
+	// the previously recorded value is never written. Its slabs already exist in the account,
+	// so remember it, to remove its slabs when the contract updates are committed.
+	previousValue, _ := s.contractUpdates.Get(key)
+	if previousValue != nil && previousValue != contractValue {
+		s.discardedContractValues = append(s.discardedContractValues, previousValue)
+	}
+
 	s.contractUpdates.Set(key, contractValue)
 }
 
@@ -217,6 +231,17 @@ func (s *Storage) commitContractUpdates(context interpreter.ValueTransferContext
 	if s.contractUpdates == nil {
 		return
 	}
+
+	// Remove the slabs of recorded contract values which were replaced
+	// before they were written, so they do not stay behind unreferenced
+	for _, discardedValue := range s.discardedContractValues {
+		discardedValue.DeepRemove(context, true)
+		interpreter.RemoveReferencedSlab(
+			context,
+			atree.SlabIDStorable(discardedValue.SlabID()),
+		)
+	}
+	s.discardedContractValues = nil
 
 	for pair := s.contractUpdates.Oldest(); pair != nil; pair = pair.Next() {
 		s.writeContractUpdate(context, pair.Key, pair.Value)
